@@ -7,4 +7,5 @@ CRYPTO_TB = ["SHA-256/512 are Section variables in the theorems (collision disju
 PROPS = {
     "C11": {"coq": "Properties/C11.v", "gens": ["C11"]},
     "C12": {"coq": "Properties/C12.v", "gens": ["C12"]},
+    "C13": {"coq": "Properties/C13.v", "gens": ["C13"]},
 }
